@@ -152,6 +152,26 @@ func blockFamily(o hreg.Opts) *family {
 			}
 		}
 	}
+	// finite fork schedule (altair 2, bellatrix 3, capella 5, deneb 6): first / second / last slot of every fork
+	// activation epoch and the slot before it. Honest signature and digest: ACCEPT; the `wrongfork` signature and the
+	// wrong digest alternatives below sign / tag with the neighbouring fork version: REJECT.
+	{
+		c := mustGet("f")
+		for _, sp := range [][2]uint64{{15, 14}, {16, 15}, {17, 16}, {23, 22}, {24, 23}, {25, 24}, {31, 30}, {32, 31}, {39, 38}, {40, 39},
+			{41, 40}, {47, 46}, {48, 47}, {49, 48}, {55, 54}, {56, 55}, {57, 56}} {
+			slot, pslot := sp[0], sp[1]
+			exp, err := c.mustAt(slot / 8).epc.GetBeaconProposer(common.Slot(slot))
+			if err != nil {
+				panic(err)
+			}
+			k := newKVs("block")
+			k.set("cfg", "f").setU("slot", slot).setU("proposer", uint64(exp)).setU("proot", 1).setU("pslot", pslot).
+				set("sigk", "ok").set("digestk", "ok").
+				setU("max", slot).set("seen", "0").set("pknown", "1").setU("fepoch", (slot/8)-1).setU("froot", 2).
+				set("fsub", "yes").set("pepc", "1").set("tow", "1").set("sepc", "1")
+			f.bases = append(f.bases, k)
+		}
+	}
 	wrongProposer := func(k *kvs) {
 		n := uint64(mustCtx(k).def.validators)
 		k.setU("proposer", (k.u("proposer")+1)%n)
@@ -665,13 +685,37 @@ func aslashFamily(o hreg.Opts) *family {
 	return f
 }
 
-// syncMember returns a (validator, subnet) of the committee in charge at the slot.
+// onSubnet: is validator v a member of the committee on the given subnet?
+func onSubnet(c *netCtx, ind []common.ValidatorIndex, v, subnet uint64) bool {
+	sub := uint64(c.spec.SYNC_COMMITTEE_SIZE) / 4
+	for i, w := range ind {
+		if uint64(w) == v && uint64(i)/sub == subnet {
+			return true
+		}
+	}
+	return false
+}
+
+// exclusiveMember: a (validator, subnet) of committee `in` that is NOT valid for committee `out` (so that a validator
+// that consults the wrong committee answers differently); falls back to position `pick` when the committees agree.
+func exclusiveMember(c *netCtx, in, out []common.ValidatorIndex, pick int) (uint64, uint64) {
+	sub := uint64(c.spec.SYNC_COMMITTEE_SIZE) / 4
+	for j := 0; j < len(in); j++ {
+		i := (pick + j) % len(in)
+		v, sn := uint64(in[i]), uint64(i)/sub
+		if !onSubnet(c, out, v, sn) {
+			return v, sn
+		}
+	}
+	i := pick % len(in)
+	return uint64(in[i]), uint64(i) / sub
+}
+
+// syncMember returns a (validator, subnet) of the committee in charge at the slot, exclusive to it where possible.
 func syncMember(c *netCtx, slot uint64, pick int) (uint64, uint64) {
 	s := syncState(c, slot)
-	ind, _ := c.syncInCharge(s, slot)
-	i := pick % len(ind)
-	sub := uint64(c.spec.SYNC_COMMITTEE_SIZE) / 4
-	return uint64(ind[i]), uint64(i) / sub
+	in, out := c.syncInCharge(s, slot)
+	return exclusiveMember(c, in, out, pick)
 }
 
 func syncWindowAlts() []mutation {
@@ -688,7 +732,11 @@ func syncMsgFamily(o hreg.Opts) *family {
 		cfg  string
 		slot uint64
 		pick int
-	}{{"s", 26, 0}, {"s", 24, 13}, {"b", 29, 77}, {"s", 17, 31}, {"s", 31, 5}, {"b", 63, 100}, {"s", 30, 20}, {"s", 33, 9}} {
+	}{{"s", 26, 0}, {"s", 24, 13}, {"b", 29, 77}, {"s", 17, 31}, {"s", 31, 5}, {"b", 63, 100}, {"s", 30, 20}, {"s", 33, 9},
+		// every slot of the last epoch of sync committee period 1 (epochs 4..7; the committees differ after the rotation
+		// at epoch 4), and the first slot of the next period
+		{"b", 56, 3}, {"b", 57, 40}, {"b", 58, 77}, {"b", 59, 101}, {"b", 60, 9}, {"b", 61, 64}, {"b", 62, 127}, {"b", 64, 5},
+		{"s", 56, 1}, {"s", 59, 14}, {"s", 62, 30}, {"s", 63, 7}, {"s", 95, 11}, {"s", 94, 20}} {
 		c := mustGet(b.cfg)
 		v, sn := syncMember(c, b.slot, b.pick)
 		k := newKVs("syncmsg")
@@ -715,9 +763,9 @@ func syncMsgFamily(o hreg.Opts) *family {
 	nextMember := func(k *kvs) {
 		c := mustCtx(k)
 		s := syncState(c, k.u("slot"))
-		_, ind := c.syncInCharge(s, k.u("slot"))
-		i := 3 % len(ind)
-		k.setU("vindex", uint64(ind[i])).setU("subnet", uint64(i)/(uint64(c.spec.SYNC_COMMITTEE_SIZE)/4))
+		in, out := c.syncInCharge(s, k.u("slot"))
+		v, sn := exclusiveMember(c, out, in, 3)
+		k.setU("vindex", v).setU("subnet", sn)
 	}
 	f.vars = []variable{
 		{"window", syncWindowAlts()},
@@ -742,11 +790,17 @@ func pickSyncAggregator(c *netCtx, slot, subidx uint64, want bool) (uint64, bool
 	sub := size / 4
 	modulo := size / 4 / 16
 	sd := sha(func() []byte { a := uint64Root(slot); return a[:] }(), func() []byte { a := uint64Root(subidx); return a[:] }())
-	inCharge, _ := c.syncInCharge(s, slot)
-	for _, v := range inCharge[subidx*sub : (subidx+1)*sub] {
-		proof := c.sign(sigOK, int(v), common.DOMAIN_SYNC_COMMITTEE_SELECTION_PROOF, s.epoch, s.epoch, sd)
-		if (hashMod(proof, modulo) == 0) == want {
-			return uint64(v), true
+	inCharge, other := c.syncInCharge(s, slot)
+	// prefer an aggregator that is not in the other committee's subcommittee (second pass: anyone)
+	for pass := 0; pass < 2; pass++ {
+		for _, v := range inCharge[subidx*sub : (subidx+1)*sub] {
+			if pass == 0 && onSubnet(c, other, uint64(v), subidx) {
+				continue
+			}
+			proof := c.sign(sigOK, int(v), common.DOMAIN_SYNC_COMMITTEE_SELECTION_PROOF, s.epoch, s.epoch, sd)
+			if (hashMod(proof, modulo) == 0) == want {
+				return uint64(v), true
+			}
 		}
 	}
 	return 0, false
@@ -759,7 +813,9 @@ func contribFamily(o hreg.Opts) *family {
 		slot, subidx uint64
 		bits         []uint64
 	}{{"s", 26, 1, []uint64{0, 3, 7}}, {"b", 28, 2, []uint64{1, 2, 3, 30, 31}}, {"s", 24, 0, []uint64{5}}, {"s", 31, 3, []uint64{0, 1}},
-		{"b", 63, 0, []uint64{4, 9}}, {"s", 17, 2, []uint64{0, 1, 2, 3, 4, 5, 6, 7}}} {
+		{"b", 63, 0, []uint64{4, 9}}, {"s", 17, 2, []uint64{0, 1, 2, 3, 4, 5, 6, 7}},
+		{"b", 56, 1, []uint64{0, 5}}, {"b", 58, 3, []uint64{2}}, {"b", 60, 0, []uint64{7, 8, 9}}, {"b", 62, 2, []uint64{31}},
+		{"s", 57, 0, []uint64{1, 2}}, {"s", 61, 3, []uint64{0}}, {"s", 64, 1, []uint64{3, 4}}} {
 		c := mustGet(b.cfg)
 		aggr, ok := pickSyncAggregator(c, b.slot, b.subidx, true)
 		if !ok {
